@@ -327,6 +327,102 @@ theorem propagation_outputs_valid {argsort : List Int → List Nat} (hs : ∀ ke
   rw [← hsplit] at h1 h2
   exact ⟨s, h1, h2⟩
 
+/-! ## 6b. from the shape of the input: routing, refusals, row / column vectors -/
+
+/-- shape of what `_split_vars` leaves: for a bipartite graph `labels_ = labels_row_` has one label per row and
+    `labels_col_` one per column; otherwise only `labels_` is set -/
+theorem split_vars_shape (bip : Bool) (nRow nCol : Nat) (L : List Nat)
+    (hlen : L.length = if bip = true then nRow + nCol else nRow) :
+    if bip = true then (splitVars bip nRow L).labelsRow = some (splitVars bip nRow L).labels ∧
+        (splitVars bip nRow L).labels.length = nRow ∧ ∃ c, (splitVars bip nRow L).labelsCol = some c ∧ c.length = nCol
+    else (splitVars bip nRow L).labelsRow = none ∧ (splitVars bip nRow L).labelsCol = none ∧
+        (splitVars bip nRow L).labels.length = nRow := by
+  cases bip with
+  | false => simpa [splitVars] using hlen
+  | true =>
+    simp only [if_true] at hlen ⊢
+    have := splitVars_bipartite nRow L (by omega)
+    refine ⟨this.1, this.2.1, ?_⟩
+    obtain ⟨c', hc1, hc2⟩ := this.2.2
+    exact ⟨c', hc1, by omega⟩
+
+/-- an input without stored entry is refused by all estimators (ValueError of `check_format`), and an unknown
+    `modularity` by Louvain / Leiden -/
+theorem estimators_refuse (argsort : List Int → List Nat) (kernel : Nat → Nat → List Int × Bool)
+    (sweeps : Nat → List Int) (nAgg : Int) (fuel nRow nCol nnz : Nat) (fb mk : Bool) (index : List Nat) (so sh : Bool) :
+    louvainEstimator argsort kernel nAgg fuel nRow nCol 0 fb mk index so sh = .error .valueError ∧
+    propagationEstimator argsort sweeps nRow nCol 0 so = .error .valueError ∧
+    (0 < nnz → louvainEstimator argsort kernel nAgg fuel nRow nCol nnz fb false index so sh = .error .valueError) := by
+  refine ⟨rfl, rfl, ?_⟩
+  intro h
+  have : (nnz == 0) = false := by simp; omega
+  simp [louvainEstimator, routeInput, this]
+
+/-- ★★ `Louvain.fit` from the shape of the input (`n_row × n_col`, at least one stored entry, known modularity):
+    the graph is treated as bipartite iff forced or not square; the fit does not raise; `labels_` — together with
+    `labels_col_` when bipartite — is a valid clustering of the `n_row` (resp. `n_row + n_col`) nodes; for a bipartite
+    graph `labels_ = labels_row_` has one label per row and `labels_col_` one per column. -/
+theorem louvain_estimator_valid {argsort : List Int → List Nat} (hs : ∀ key, IsArgsort key (argsort key))
+    {kernel : Nat → Nat → List Int × Bool} (hk : KernelLen kernel) (nAgg : Int) (fuel : Nat)
+    {nRow nCol nnz : Nat} (hr : 0 < nRow) (hnnz : 0 < nnz) (forceBipartite : Bool)
+    (sortClusters shuffle : Bool) {index : List Nat}
+    (hidx : shuffle = true → index.Perm
+      (List.range (if (forceBipartite || nRow != nCol) = true then nRow + nCol else nRow))) :
+    let bip := forceBipartite || nRow != nCol
+    let N := if bip = true then nRow + nCol else nRow
+    louvainEstimator argsort kernel nAgg fuel nRow nCol nnz forceBipartite true index sortClusters shuffle = .ok none ∨
+    ∃ f count, louvainEstimator argsort kernel nAgg fuel nRow nCol nnz forceBipartite true index sortClusters shuffle
+        = .ok (some (f, count)) ∧
+      ValidClustering N (allLabels f) sortClusters ∧
+      (if bip = true then f.labelsRow = some f.labels ∧ f.labels.length = nRow ∧
+          ∃ c, f.labelsCol = some c ∧ c.length = nCol
+       else f.labelsRow = none ∧ f.labelsCol = none ∧ f.labels.length = nRow) := by
+  intro bip N
+  have hz : (nnz == 0) = false := by simp; omega
+  have hN : 0 < N := by simp only [N]; split <;> omega
+  have heq : louvainEstimator argsort kernel nAgg fuel nRow nCol nnz forceBipartite true index sortClusters shuffle
+      = louvainFit argsort kernel nAgg fuel N index sortClusters shuffle bip nRow := by
+    simp [louvainEstimator, routeInput, hz, bip, N]
+  rw [heq]
+  rcases louvainFit_spec hs hk nAgg fuel hN sortClusters shuffle bip nRow hidx with h | ⟨f, c, h, hv, hsplit⟩
+  · exact Or.inl h
+  · refine Or.inr ⟨f, c, h, hv, ?_⟩
+    have hlen : (allLabels f).length = N := hv.1
+    rw [hsplit]
+    exact split_vars_shape bip nRow nCol (allLabels f) hlen
+
+example : louvainEstimator argsortStable exKernel (-1) 6 2 3 4 false true [4, 2, 0, 3, 1] true true
+    = .ok (some (⟨[0, 0], some [0, 0], some [0, 0, 1]⟩, 2)) := by decide
+
+/-- ★★ the same for `PropagationClustering.fit`, for any labels the sweeps leave on the nodes of the adjacency -/
+theorem propagation_estimator_valid {argsort : List Int → List Nat} (hs : ∀ key, IsArgsort key (argsort key))
+    {sweeps : Nat → List Int} (hsw : ∀ n, (sweeps n).length = n)
+    {nRow nCol nnz : Nat} (hnnz : 0 < nnz) (sortClusters : Bool) :
+    let bip := nRow != nCol
+    let N := if bip = true then nRow + nCol else nRow
+    ∃ f, propagationEstimator argsort sweeps nRow nCol nnz sortClusters = .ok f ∧
+      ValidClustering N (allLabels f) sortClusters ∧
+      (if bip = true then f.labelsRow = some f.labels ∧ f.labels.length = nRow ∧
+          ∃ c, f.labelsCol = some c ∧ c.length = nCol
+       else f.labelsRow = none ∧ f.labelsCol = none ∧ f.labels.length = nRow) := by
+  intro bip N
+  have hz : (nnz == 0) = false := by simp; omega
+  have heq : propagationEstimator argsort sweeps nRow nCol nnz sortClusters
+      = .ok (propagationPost argsort (sweeps N) sortClusters bip nRow) := by
+    simp [propagationEstimator, routeInput, hz, bip, N]
+  refine ⟨_, heq, ?_⟩
+  have hv := (propagationPost_spec hs (sweeps N) sortClusters bip nRow).1
+  rw [hsw] at hv
+  refine ⟨hv, ?_⟩
+  have hlen : (allLabels (propagationPost argsort (sweeps N) sortClusters bip nRow)).length = N := hv.1
+  have hsplit : propagationPost argsort (sweeps N) sortClusters bip nRow =
+      splitVars bip nRow (allLabels (propagationPost argsort (sweeps N) sortClusters bip nRow)) := by
+    conv_rhs => rw [show propagationPost argsort (sweeps N) sortClusters bip nRow =
+      splitVars bip nRow (sortedLabels argsort sortClusters (inverse (sweeps N))) from rfl, allLabels_splitVars]
+    rfl
+  rw [hsplit]
+  exact split_vars_shape bip nRow nCol _ hlen
+
 /-! ## 7. KCenters -/
 
 /-- ★ `_init_centers`: `n_clusters` distinct centres inside the admissible mask, whatever the random choices and
